@@ -83,6 +83,9 @@ func floatLit(f float64) string {
 type Node struct {
 	K      string
 	Parent int
+	// Bare: no log() sink under this node, its children read its output edge directly
+	// (a sink re-buffers batches and thereby restores the size hint the node set).
+	Bare bool
 
 	Lam      string   // where, stateCount, stateDuration
 	Lams     []string // eval (scalars), combine (predicates)
@@ -117,6 +120,9 @@ func sl(s []string) []any {
 // Enc is the descriptor as the trace spec reads it (only the keys of its kind).
 func (n Node) Enc() rt.M {
 	m := rt.M{"k": n.K, "parent": n.Parent}
+	if n.Bare {
+		m["bare"] = true
+	}
 	switch n.K {
 	case "tap":
 	case "where":
@@ -269,6 +275,9 @@ func (n Node) Key() string {
 	if t == "" {
 		t = "|tap"
 	}
+	if n.Bare {
+		t += "(bare)"
+	}
 	return fmt.Sprintf("%d%s", n.Parent, t)
 }
 
@@ -316,7 +325,11 @@ func (p Pipe) Script() string {
 	}
 	b.WriteString("\n    |log().prefix('s0')\n")
 	for i, n := range p.Nodes {
-		fmt.Fprintf(&b, "var n%d = n%d\n    %s|log().prefix('s%d')\n", i+1, n.Parent, n.Tick(), i+1)
+		if n.Bare {
+			fmt.Fprintf(&b, "var n%d = n%d\n    %s\n", i+1, n.Parent, n.Tick())
+		} else {
+			fmt.Fprintf(&b, "var n%d = n%d\n    %s|log().prefix('s%d')\n", i+1, n.Parent, n.Tick(), i+1)
+		}
 	}
 	return b.String()
 }
